@@ -15,11 +15,16 @@
 (*        lock: found => forget it and succeed, else fail.                    *)
 EXTENDS Integers, Sequences, FiniteSets, TLC
 
-CONSTANTS Reqs,          \* sequence of transaction ids W sends, in order
+CONSTANTS Reqs,          \* sequence of transaction ids W sends, in order (an id may be used again by a later request)
           Dups,          \* ids the peer answers twice
-          RegisterFirst
+          RegisterFirst,
+          FailIdx        \* positions in Reqs whose transport write FAILS (nothing reaches the transport, WritePacket
+                         \* returns the transport's error); a failed request must not disturb an earlier outstanding
+                         \* request that happens to use the same id
 
 Ids == {Reqs[i] : i \in 1..Len(Reqs)}
+\* after a failed transport write the connection's buffered writer stays failed: only the last request can fail
+ASSUME FailIdx \subseteq {Len(Reqs)}
 
 VARIABLES widx,      \* index of the request W is working on (Len+1 when done)
           wpc,       \* "idle" | "called" | "registered" | "written" (waiting to return)
@@ -52,9 +57,13 @@ W_Register ==
 W_TWrite ==
   /\ widx <= Len(Reqs)
   /\ IF RegisterFirst THEN wpc = "registered" ELSE wpc = "called"
-  /\ written' = written \cup {Cur}
-  /\ wpc' = IF RegisterFirst THEN "done" ELSE "written"
-  /\ Log("twrite", Cur)
+  /\ IF widx \in FailIdx
+     THEN /\ written' = written                 \* the transport refused the bytes
+          /\ wpc' = "done"                      \* WritePacket returns the error
+          /\ Log("twritefail", Cur)
+     ELSE /\ written' = written \cup {Cur}
+          /\ wpc' = IF RegisterFirst THEN "done" ELSE "written"
+          /\ Log("twrite", Cur)
   /\ UNCHANGED <<widx, pending, nresp, inbox, rcur, results>>
 
 W_Return == /\ widx <= Len(Reqs) /\ wpc = "done" /\ wpc' = "idle" /\ widx' = widx + 1 /\ Log("return", Cur)
@@ -92,6 +101,10 @@ MatchOnce  == \A t \in Ids : NthResult(t, 2) \in {"none", "fail"}
 \* requests without response are still remembered
 Quiescent == widx > Len(Reqs) /\ inbox = <<>> /\ rcur = 0
 AllAnswered == \A t \in Ids : nresp[t] = (IF t \in Dups THEN 2 ELSE 1)
-NoLoss == Quiescent => pending = {t \in Ids : nresp[t] = 0}
+\* nothing is lost: at quiescence every request that reached the transport and was not answered is still
+\* remembered, and nothing else is - except that a request whose write failed may leave its id remembered
+FailedIds == {Reqs[i] : i \in FailIdx \cap (1..Len(Reqs))}
+NoLoss == Quiescent => /\ {t \in written : nresp[t] = 0} \subseteq pending
+                       /\ pending \subseteq ({t \in Ids : nresp[t] = 0} \cup FailedIds)
 Done == Quiescent /\ AllAnswered
 =============================================================================
